@@ -236,6 +236,16 @@ def _corpus():
                                             "ars_ff1": ("ars_ff1", "true"), "ars_ff2": ("ars_ff2", "true"), "no_shreg_extract": None}
         d = T(); return d, {d.i, d.o}
     out.append(("several-attributes-with-a-platform-attr_translate", attrs))
+    def domains():
+        """registers in six clock domains: the always blocks must come out in one order in every run"""
+        class T(Module):
+            def __init__(self):
+                self.i = Signal(4); self.o = Signal(4); acc = self.i
+                for n in ("sys", "pix", "eth_rx", "eth_tx", "usb", "ddr"):
+                    r = Signal(4, name=f"r_{n}"); getattr(self.sync, n).__iadd__(r.eq(acc + 1)); acc = r
+                self.comb += self.o.eq(acc)
+        d = T(); return d, {d.i, d.o}
+    out.append(("six-clock-domains", domains))
     return out
 
 def _convert_twice(d, ios, name):
